@@ -418,6 +418,15 @@ func checkErrAtomic(r *Run, ms *mutSummary, fn *ssa.Function, rule string) {
 			} else {
 				reach = blockReaches(w.Block(), ret.Block())
 			}
+			if reach && undoOnly(fn, w) {
+				// a store that only ever runs on the way to a failure return is the undo itself
+				continue
+			}
+			if reach && compensated(p, ms, fn, w, ret) {
+				// the failure path puts the written field back (undo of a multi-step operation): whether
+				// the undo is exact is a value-level question this rule does not decide
+				continue
+			}
 			if reach {
 				what := "a store"
 				if c, ok := w.(ssa.CallInstruction); ok {
@@ -1854,6 +1863,77 @@ func ruleGridBound(r *Run) {
 				if x.High != nil {
 					uses = append(uses, use{x.High, 0, "high bound"})
 				}
+			case *ssa.Call:
+				// the slicing is delegated to a helper that is handed t.Grid.Cols (removeRange(cols, a, b),
+				// insertAt(cols, pos, v)): the helper's uses of its slice parameter, expressed in its own
+				// integer parameters, are obligations on the arguments at this call — unless the helper
+				// compares that parameter with the slice's length itself
+				cal := staticCallee(x)
+				if cal == nil || !p.inModule(cal) || len(cal.Blocks) == 0 {
+					return
+				}
+				for ai, a := range x.Call.Args {
+					if !isGridCols(a) || ai >= len(cal.Params) {
+						continue
+					}
+					sp := cal.Params[ai]
+					selfGuarded := map[*ssa.Parameter]bool{}
+					allInstrs(cal, func(in2 ssa.Instruction) {
+						bo, ok := in2.(*ssa.BinOp)
+						if !ok {
+							return
+						}
+						switch bo.Op {
+						case token.LSS, token.GTR, token.LEQ, token.GEQ:
+						default:
+							return
+						}
+						for _, side := range [][2]ssa.Value{{bo.X, bo.Y}, {bo.Y, bo.X}} {
+							if lc, ok := side[1].(*ssa.Call); ok {
+								if bi, ok := lc.Call.Value.(*ssa.Builtin); ok && bi.Name() == "len" && lc.Call.Args[0] == ssa.Value(sp) {
+									if b, _ := offsetOf(side[0]); b != nil {
+										if q, ok := b.(*ssa.Parameter); ok {
+											selfGuarded[q] = true
+										}
+									}
+								}
+							}
+						}
+					})
+					addUse := func(v ssa.Value, slack int64, what string) {
+						b, off := offsetOf(v)
+						q, ok := b.(*ssa.Parameter)
+						if !ok || selfGuarded[q] {
+							return
+						}
+						qi := paramIndex(cal, q)
+						if qi < 0 || qi >= len(x.Call.Args) {
+							return
+						}
+						// value used = arg + off; needs arg + off ≤ len + slack  ⇔  arg ≤ len + (slack − off)
+						uses = append(uses, use{x.Call.Args[qi], slack - off, what + " (in " + shortName(cal) + ")"})
+					}
+					allInstrs(cal, func(in2 ssa.Instruction) {
+						switch y := in2.(type) {
+						case *ssa.IndexAddr:
+							if y.X == ssa.Value(sp) {
+								addUse(y.Index, -1, "index")
+							}
+						case *ssa.Slice:
+							if y.X == ssa.Value(sp) {
+								if y.Low != nil {
+									addUse(y.Low, 0, "low bound")
+								}
+								if y.High != nil {
+									addUse(y.High, 0, "high bound")
+								}
+							}
+						}
+					})
+				}
+				if len(uses) == 0 {
+					return
+				}
 			default:
 				return
 			}
@@ -2122,7 +2202,15 @@ func ruleColAllRows(r *Run) {
 		if fn.Signature.Recv() == nil || !typeIs(fn.Signature.Recv().Type(), pkgDoc, "Table") || !strings.Contains(fn.Name(), "Column") {
 			continue
 		}
-		for _, g := range helperGroup(p, fn) {
+		// the column operation and every unexported function it reaches (a helper shared by the two
+		// delete operations belongs to both)
+		group := []*ssa.Function{fn}
+		for _, g := range sortedFuncs(p.staticReach(fn)) {
+			if g != fn && g.Pkg != nil && g.Pkg.Pkg.Path() == pkgDoc && (g.Object() == nil || !g.Object().Exported()) {
+				group = append(group, g)
+			}
+		}
+		for _, g := range group {
 			for _, l := range naturalLoops(g) {
 				ri := rangeOf(l)
 				if ri == nil {
@@ -2354,10 +2442,11 @@ func idxPath(addr ssa.Value) (ssa.Value, string) {
 }
 
 type lenFlow struct {
-	fn   *ssa.Function
-	path string
-	need int64
-	in   map[*ssa.BasicBlock]bool
+	fn    *ssa.Function
+	path  string
+	need  int64
+	in    map[*ssa.BasicBlock]bool
+	depth int // nesting of validating-helper evaluations
 }
 
 func sliceLitLen(v ssa.Value) int64 {
@@ -2434,6 +2523,56 @@ func (lf *lenFlow) edgeFact(from, to *ssa.BasicBlock) bool {
 	}
 	bin, ok := iff.Cond.(*ssa.BinOp)
 	if !ok {
+		return s
+	}
+	// `if err := t.check(…); err != nil { return err }`: on the nil edge everything the validating
+	// helper establishes on its own nil-error returns holds here as well
+	if (bin.Op == token.NEQ || bin.Op == token.EQL) && (isNilConst(bin.X) || isNilConst(bin.Y)) {
+		ev := bin.X
+		if isNilConst(ev) {
+			ev = bin.Y
+		}
+		nilEdge := from.Succs[1]
+		if bin.Op == token.EQL {
+			nilEdge = from.Succs[0]
+		}
+		if to == nilEdge && isErrorType(ev.Type()) {
+			var call *ssa.Call
+			switch e := ev.(type) {
+			case *ssa.Call:
+				call = e
+			case *ssa.Extract:
+				call, _ = e.Tuple.(*ssa.Call)
+			}
+			if call != nil && lf.depth < 2 {
+				if g := staticCallee(call); g != nil && gProg != nil && gProg.inModule(g) && len(g.Blocks) > 0 {
+					for i, a := range call.Call.Args {
+						if i >= len(g.Params) {
+							break
+						}
+						root := a.Name()
+						if !strings.HasPrefix(lf.path, root) || (len(lf.path) > len(root) && lf.path[len(root)] != '.' && lf.path[len(root)] != '[') {
+							continue
+						}
+						sub := newLenFlowDepth(g, g.Params[i].Name()+lf.path[len(root):], lf.need, lf.depth+1)
+						ei := errorResultIndex(g.Signature)
+						okAll, any := true, false
+						for _, ret := range returnsOf(g) {
+							if ei >= 0 && !possiblyNilError(gProg, retResult(ret, ei), ret.Block()) {
+								continue
+							}
+							any = true
+							if !sub.at(ret) {
+								okAll = false
+							}
+						}
+						if any && okAll {
+							return true
+						}
+					}
+				}
+			}
+		}
 		return s
 	}
 	op, x, y := bin.Op, bin.X, bin.Y
@@ -2527,7 +2666,11 @@ func nonNegValue(v ssa.Value) bool {
 }
 
 func newLenFlow(fn *ssa.Function, path string, need int64) *lenFlow {
-	lf := &lenFlow{fn: fn, path: path, need: need, in: map[*ssa.BasicBlock]bool{}}
+	return newLenFlowDepth(fn, path, need, 0)
+}
+
+func newLenFlowDepth(fn *ssa.Function, path string, need int64, depth int) *lenFlow {
+	lf := &lenFlow{fn: fn, path: path, need: need, in: map[*ssa.BasicBlock]bool{}, depth: depth}
 	for _, b := range fn.Blocks {
 		lf.in[b] = b.Index != 0
 	}
@@ -2672,6 +2815,76 @@ func builtByConstructor(p *Program, reader *readerModel, c *ssa.Call, owner *typ
 					return false
 				}
 			}
+		}
+	}
+	return true
+}
+
+// compensated: between the write w and the failure return ret the function itself stores into a
+// receiver field that w wrote (t.Rows = append(t.Rows[:pos], t.Rows[pos+i:]...) after a failed step
+// of a multi-row insertion) — an explicit undo.  Only a write made through a callee can be undone
+// this way (a direct store followed by a direct store of the same field is just two writes).
+func compensated(p *Program, ms *mutSummary, fn *ssa.Function, w ssa.Instruction, ret *ssa.Return) bool {
+	// fields the function's callees write (w may be a call, or the first instruction of the success
+	// continuation standing for an atomic callee's write)
+	written := map[*types.Var]bool{}
+	allInstrs(fn, func(in ssa.Instruction) {
+		c, ok := in.(ssa.CallInstruction)
+		if !ok {
+			return
+		}
+		cal := staticCallee(c)
+		if cal == nil || !p.inModule(cal) {
+			return
+		}
+		for _, sites := range ms.Params(cal) {
+			for _, s := range sites {
+				if s.Field != nil {
+					written[s.Field] = true
+				}
+			}
+		}
+	})
+	if len(written) == 0 {
+		return false
+	}
+	if _, isStore := w.(*ssa.Store); isStore {
+		return false // a direct store followed by a direct store of the same field is just two writes
+	}
+	found := false
+	allInstrs(fn, func(in ssa.Instruction) {
+		st, ok := in.(*ssa.Store)
+		if !ok || found {
+			return
+		}
+		fv, _ := fieldOfAddr(st.Addr)
+		if fv == nil || !written[fv] || !undoOnly(fn, st) {
+			return
+		}
+		if instrBefore(w, st) && instrBefore(st, ret) {
+			found = true
+		}
+	})
+	return found
+}
+
+// undoOnly: w is a direct store from which no success return can be reached.
+func undoOnly(fn *ssa.Function, w ssa.Instruction) bool {
+	if _, ok := w.(*ssa.Store); !ok {
+		return false
+	}
+	fails := map[*ssa.Return]bool{}
+	for _, r := range failureReturns(fn) {
+		fails[r] = true
+	}
+	reach := reachableBlocks(w.Block(), nil)
+	reach[w.Block()] = true
+	for _, ret := range returnsOf(fn) {
+		if fails[ret] {
+			continue
+		}
+		if reach[ret.Block()] {
+			return false
 		}
 	}
 	return true
